@@ -80,6 +80,7 @@ inductive FPhase where
   | queued                        -- message in the front channel, waiting on the oneshot
   | inManager                     -- the send task took the message: the oneshot sits in the manager
   | disconnected                  -- got `ServiceDisconnect`; in `read_error` at `conn.closed().await`
+  | watching                      -- the application awaits `Client::on_disconnect()` itself (same wait, by choice)
   | resolved (r : FRes)
   deriving DecidableEq, Repr
 
@@ -151,7 +152,11 @@ def frontDrop (s : State) (i : Nat) : State :=
 def frontReadError (s : State) (i : Nat) : State :=
   match s.fronts[i]? with
   | some .disconnected => if s.frontClosed then s.setPhase i (.resolved (slotResult s)) else s
+  | some .watching => if s.frontClosed then s.setPhase i (.resolved (slotResult s)) else s
   | _ => s
+
+/-- the application starts to await `Client::on_disconnect()` -/
+def frontWatch (s : State) : State := { s with fronts := s.fronts ++ [.watching] }
 
 /-- `futures_timer::Delay` wins the `select` of `run_future_until_timeout` -/
 def frontTimer (s : State) (i : Nat) : State :=
@@ -244,6 +249,10 @@ def sendWatcherGone (s : State) : State :=
 def completeOne (s : State) (i : Nat) : State :=
   if s.fronts[i]? = some .inManager then s.setPhase i (.resolved .ok) else s
 
+/-- a background task sends on the oneshot of a waiting operation (the read task answering a call,
+the send task answering `subscribe_to_method` or refusing a duplicate id) -/
+def taskAnswers (s : State) (i : Nat) : State := completeOne s i
+
 /-- one incoming message handled without error: at most one waiting operation is answered,
 `internal` messages (unsubscribe / subscription-closed) are queued for the send task -/
 def readOk (s : State) (answered : Option Nat) (internal : Nat) : State :=
@@ -289,6 +298,8 @@ inductive Op where
   | frontDrop (i : Nat)
   | frontReadError (i : Nat)
   | frontTimer (i : Nat)
+  | frontWatch
+  | taskAnswers (i : Nat)
   | consumerMsg
   | sendTake
   | sendOk
@@ -312,6 +323,8 @@ def step (o : ExitOrder) (s : State) : Op → State
   | .frontReadError i => frontReadError s i
   | .frontTimer i => frontTimer s i
   | .consumerMsg => consumerMsg s
+  | .frontWatch => frontWatch s
+  | .taskAnswers i => taskAnswers s i
   | .sendTake => sendTake s
   | .sendOk => sendOk s
   | .sendErr tag => sendErr o s tag
